@@ -246,8 +246,7 @@ class SubmitSm(Trackable, SmppMessage):
                     '`optional_params`. Use `message_payload` parameter instead.'
                 )
 
-        if not self.short_message and not self.message_payload:
-            raise ValueError('Either short_message or message_payload must be specified')
+        # An empty text is legal (sm_length 0 and no message_payload): an SMSC may deliver one
         if self.short_message and self.message_payload:
             raise ValueError('Specifying both short_message and message_payload is not allowed')
         super().__post_init__()
